@@ -14,6 +14,7 @@ structure Cur where
   backrefs : List Nat
   built : Except CompileErr Built
   modelled : Bool                      -- all characters / classes are inside the modelled tables
+                                       -- and no delegated piece contains an empty-bodied loop
   specialChars : List Char
 deriving Inhabited
 
@@ -38,6 +39,15 @@ def exprsModelled : List Expr → Bool
   | [] => true
   | e :: es => exprModelled e && exprsModelled es
 end
+
+/-- A-RA is assumed only for delegated pieces without empty-bodied unbounded loops (F1 territory:
+    regex-automata has span and capture semantics of its own there) -/
+def raModelled (b : Built) : Bool :=
+  match b.kind with
+  | .wrap => noEmptyLoop b.raw
+  | .fancy prog => prog.body.all fun i => match i with
+    | .delegate es _ _ => noEmptyLoopAll es
+    | _ => true
 
 def errName : CompileErr → String
   | .invalidBackref => "InvalidBackref"
@@ -118,7 +128,7 @@ def doPat (sp : List Char) (fields : List String) : Cur × String :=
     | some (tree, []) =>
       let backrefs := ((brs.splitOn ",").filterMap String.toNat?)
       let built := build tree backrefs
-      let modelled := exprModelled tree
+      let modelled := exprModelled tree && (match built with | .ok b => raModelled b | .error _ => true)
       let cur : Cur := ⟨tree, backrefs, built, modelled, sp⟩
       let ans := match built with
         | .error e => "err:" ++ errName e
@@ -168,7 +178,7 @@ def doCaps (cur : Cur) (fields : List String) : String :=
         | some cpos =>
           let c := mkCtx chars cpos skipped
           let (r, st) := b.captures c limit driverFuel
-          let ref := match refSearch c b.raw b.nGroups with
+          let ref := match refSearchK c b.raw b.nGroups with
             | some f => SearchResult.found f.slots
             | none => .noMatch
           s!"{showResult off r}\t{st.steps},{st.backtracks},{st.maxDepth}\t{showResult off ref}"
